@@ -379,6 +379,9 @@ def _c03_after(tier, rep):
     explore_threads('C03', tier, rep, ['overwrite_foreign_then_fail', 'rebuild_two_then_fail'], budget(tier, 2, 3), budget(tier, 300, 5000))
     # _make_room on its own: it may only move files the virtual tree does not know to the undo log and remove
     # directories the virtual tree does not know (oracle), and must do what FB.MakeRoom says (tie)
+    from . import mdcheck
+    for q in [x for x in mdcheck.run(tier, rep, salt=3) if x.get('foreign')][:2]:
+        rep.violation('makedirs_foreign', {'property': 'C03', 'kind': 'failing-input', 'what': q}, note=json.dumps(q, default=str)[:250])
     from . import mrcheck
     probs = mrcheck.run(tier, rep)
     for q in [x for x in probs if x.get('oracle')][:2]:
@@ -849,7 +852,7 @@ def bigfile_probe(tier, rep):
 
 
 def check_C13(tier):
-    return run_hist_prop('C13', tier, 13, 200, 10000, families=[gen.scen_reads, gen.scen_stamped, gen.scen_selfread, gen.scen_sibling_outputs], per_family=(120, 3000),
+    return run_hist_prop('C13', tier, 13, 200, 10000, families=[gen.scen_reads, gen.scen_stamped, gen.scen_selfread, gen.scen_sibling_outputs, gen.scen_read_after_caught_failure], per_family=(120, 3000),
                          extra_cases=c13_cases, prof=dict(gen.DEFAULT_PROFILE, p_hash=0.5),
                          _after=lambda rep: [rep.violation('bigfile', {'property': 'C13', 'kind': 'failing-input', 'what': q},
                                                            note=json.dumps(q, default=str)[:250]) for q in bigfile_probe(tier, rep)[:2]])
